@@ -16,7 +16,9 @@ pub fn run(case: &Sx, out: &mut Vec<Ev>) {
         }
         let o = op.list();
         match o[0].num() {
-            1 => t.set_distance(o[1].num() as usize, o[2].num() as usize, o[3].num() as u8),
+            // the value 255 is handed over as the crate's own name for it (ACPI: 255 = unreachable)
+            1 => t.set_distance(o[1].num() as usize, o[2].num() as usize,
+                                if o[3].num() == 255 { acpi_tables::slit::UNREACHABLE_LOCALITY } else { o[3].num() as u8 }),
             _ => panic!("harness: bad slit op"),
         }
         out.push(Ev::Num(0));
